@@ -14,9 +14,9 @@
     ensures
         // C10: the result is the download if it decodes, otherwise the stored copy
         res matches Ok(o) ==> o == ta_loaded(self, uri),
-//@ closure 1
+//@ closure map 1 optional
 |bytes: Option<Bytes>| -> (r: Option<Cert>) ensures r == (match bytes { Some(b) => cert_decode(b), None => None })
-//@ closure 2
+//@ closure and_then 1 optional
 |bytes: Bytes| -> (r: Option<Cert>) ensures r == cert_decode(bytes)
 //@ fn Run::process_tal_task
 //@ spec
